@@ -89,6 +89,20 @@ BENIGN = {
     "B14_write_compares_after_strip_of_nothing": [
         sub("lena/output/write.py", "                if data != existing_data:",
             "                if not (data == existing_data):")],
+    "B16_pdftopng_subprocess_run": [
+        sub("lena/output/pdf_to_png.py",
+            "    popen = subprocess.Popen(command)\n",
+            "    completed = subprocess.run(command, timeout=timeoutsec)\n"),
+        sub("lena/output/pdf_to_png.py",
+            "    (stdoutdata, stderrdata) = popen.communicate(pkwargs)\n    returncode = popen.returncode\n",
+            "    stdoutdata, stderrdata = completed.stdout, completed.stderr\n    returncode = completed.returncode\n")],
+    "B17_cache_exists_isfile": [
+        sub("lena/flow/cache.py", "        return os.access(self._filename, os.R_OK)",
+            "        return os.path.isfile(self._filename) and os.access(self._filename, os.R_OK)")],
+    "B18_write_makedirs_exist_ok": [
+        sub("lena/output/write.py",
+            "                if not os.path.exists(curdir):\n",
+            "                if curdir and not os.path.isdir(curdir):\n")],
     "B15_cache_dump_local_function": [
         sub("lena/flow/cache.py", "                dump = lambda val: self._dump(val, f, self.protocol)\n",
             "                def dump(val, _dump=self._dump, _f=f, _protocol=self.protocol):\n"
